@@ -169,12 +169,17 @@ theorem burgers_closure (pi I : F) (s : Setup F) (μ : Fin 6 → Mode F) (k : Fi
   rw [e]; simp only [sum3, hcomp]
   fin_cases i <;> simp [kron]
 
-/-- continuity elsewhere, algebraic core: where no `ln ηₐ` jumps, the displacement does not jump
-    (the displacement is linear in the six logarithms). -/
+/-- continuity elsewhere, algebraic core: the difference of the displacement at two points is the FIXED linear form
+    `Σₐ dispCoefₐ (ln ηₐ(x₁) - ln ηₐ(x₂))` of the differences of the six logarithms, so where no `ln ηₐ` jumps the
+    displacement does not jump.  (Statement audit: the earlier form had only the second conjunct, a congruence true of any
+    function; the analytic statement is `disp_continuous_off_cut_analytic`.) -/
 theorem disp_continuous_off_cut (pi I : F) (s : Setup F) (μ : Fin 6 → Mode F) (k : Fin 6 → F)
-    (l₁ l₂ : Fin 6 → F) (h : ∀ a, l₁ a = l₂ a) (i : Fin 3) :
-    dispAt pi I s μ k l₁ i = dispAt pi I s μ k l₂ i := by
-  simp only [dispAt, sum6, h]
+    (l₁ l₂ : Fin 6 → F) (i : Fin 3) :
+    dispAt pi I s μ k l₁ i - dispAt pi I s μ k l₂ i = (sum6 fun a => dispCoef pi I s μ k a i * (l₁ a - l₂ a))
+    ∧ ((∀ a, l₁ a = l₂ a) → dispAt pi I s μ k l₁ i = dispAt pi I s μ k l₂ i) := by
+  refine ⟨?_, fun h => ?_⟩
+  · simp only [dispAt, sum6]; ring
+  · simp only [dispAt, sum6, h]
 
 /-! ### energy-coefficient tensor -/
 
